@@ -432,10 +432,7 @@ impl Scenario for C08 {
     }
 
     fn run(&self, seed: u64, ch: Chooser, ctx: &RunCtx) -> RunOut {
-        let mut w = World::new(seed, ch);
-        if ctx.render {
-            w.render = Some(vec![]);
-        }
+        let mut w = mesh::new_world(seed, ch, ctx);
         let mut states = vec![];
         let res = scenario(&mut w, ctx, &mut states);
         let nontrivial = w.counters.get("c08_delivered").copied().unwrap_or(0) > 0;
